@@ -51,6 +51,18 @@ STYLES['broad'] = (
     'when within 1e-12, shape access via unpacking / indexing / np.shape, named constants, dispatch tables, from-imports and local aliases, assert messages as f-strings, type hints, '
     'comments. Invent further ones.')
 
+STYLES['dataflow'] = (
+    'Apply 14 to 20 independent, realistic, BEHAVIOUR-PRESERVING edits that RESTRUCTURE HOW VALUES FLOW rather than how single expressions are spelled, spread over as many of '
+    'the listed functions as possible. Use for example: option handling moved into small private helpers that return tuples / dicts of settings (dispatch tables keyed by the '
+    'option string; helpers with *args / **kwargs; functools.partial); operands collected in a list or tuple and passed with * (np.einsum(op, *operands)); index tuples built '
+    'programmatically ((..., *(None,) * k), (slice(None),) * n + (i,)); axis permutations built by helpers or by list.extend / insert; normalisers computed once and '
+    'reused, or moved next to their use; divisions written as np.divide(a, b, out=...) on fresh arrays or as multiplication by a reciprocal that is computed once; post-processing '
+    '(np.mean over sources, reshapes back, transposes back) applied in a loop / comprehension over several results at once (SDR, SIR, SNR = (f(x) for x in ...)), or through a '
+    'local closure; results accumulated in dicts and unpacked at the end; early returns instead of if / else pyramids and the other way round; try / except / else regrouped '
+    'without changing what is caught; guard clauses; flags computed once (is_cos = metric == "cos") and tested later; loop bodies moved into nested functions; for-loops over '
+    'indices turned into zip / enumerate over the arrays themselves; temporary arrays renamed instead of rebinding the argument name (flat_A = A.reshape(...)); values threaded '
+    'through small dataclasses / namedtuples. Keep every normalisation, floor, copy, transpose and reshape that exists - move them, wrap them, but do not drop or duplicate them.')
+
 TEMPLATE = '''You are helping to evaluate a static-analysis based verification tool for the Python library fgnt/pb_bss (EM mixture models, beamformers, permutation alignment, masks, metrics). The tool must NOT raise alarms on code whose behaviour is unchanged. Your job is to act as a careful maintainer who REFACTORS code WITHOUT changing behaviour, so that we can test the tool for false alarms.
 
 Work ONLY inside your own scratch git worktree of the library: {wt} (package directory {wt}/pb_bss). Do NOT read or write anything under /verif or /repo. Do not commit. Never use `git stash` (it is shared between worktrees).
